@@ -23,7 +23,7 @@ Qed.
 Print Assumptions C18_labels_at_rest.
 
 (* effects are never retracted: whatever happens later, host calls already made stay made *)
-Theorem C18_effects_monotone : forall fuel s L x, extends s (fst (fst (Sem.exec_o eval truthy tick recatch val_seq fuel s L x))).
+Theorem C18_effects_monotone : forall fuel s L x, extends s (fst (fst (Sem.exec_o eval truthy tick recatch val_seq enum live bind fuel s L x))).
 Proof. exact exec_extends. Qed.
 Print Assumptions C18_effects_monotone.
 
